@@ -60,7 +60,27 @@ def run_c05(h, sch, rng, tier, verdict, counters, stats, samples):
         cases.append(dict(id=f'c5-{i}', root=root, opts=opts, ops=ops, mode='cuts'))
         stats[f'compr_{opts["compression"]}'] += 1
         stats[f'flags_{opts["flags"]}'] += 1
-    outs, stderr, rc = h.run_go(cases, timeout=1500)
+    # streams whose last column is large (> 4 KiB, > any buffer the reader holds): cuts sampled
+    big = 'cd' * 6000
+    ex = lambda v: [['5', [1, '7'], '', '', [['6b', [7, v]]]]]
+    mrec = lambda v, t: [[[]], ['6d', '', '', '0', [], [], '0', False], ['', [], '0'], ['', '', '', [], '0'], [], [str(t), '2', [1, '4'], ex(v)]]
+    for compr in (0, 1):
+        ops = [{'op': 'set', 'v': mrec('01', 1), 'freeze': True}, {'op': 'w'}, {'op': 'f'},
+               {'op': 'set', 'v': mrec(big, 2), 'freeze': True}, {'op': 'w'}, {'op': 'set', 'v': mrec(big[:-4], 3), 'freeze': True}, {'op': 'w'}, {'op': 'f'}]
+        cases.append(dict(id=f'c5-big-last-column-c{compr}', root='Metrics', opts={'compression': compr, 'flags': 0}, ops=ops, mode='',
+                          cuts=[-1]))
+    outs, stderr, rc = h.run_go([c for c in cases if c.get('cuts') != [-1]], timeout=1500)
+    # big cases: first pass to learn the length, then sampled cuts
+    bigc = [c for c in cases if c.get('cuts') == [-1]]
+    for c in bigc:
+        c['cuts'] = []
+    bouts, _, _ = h.run_go(bigc)
+    for c, o in zip(bigc, bouts):
+        nb = len(o['stream']) // 2
+        c['cuts'] = sorted(set(list(range(0, min(nb, 300))) + list(range(300, nb, 97)) + list(range(max(0, nb - 200), nb + 1))
+                               + [nb - 3000, nb - 6000, nb - 9000, nb - 11000]) & set(range(nb + 1)))
+    bouts, _, _ = h.run_go(bigc)
+    outs += bouts
     if len(outs) != len(cases):
         verdict.violation(dict(broken='go harness crashed', stderr=stderr), 'harness process died', no_input=False)
         return 0
@@ -108,7 +128,7 @@ def run_c05(h, sch, rng, tier, verdict, counters, stats, samples):
                 verdict.violation(replay, f'{c["id"]} cut {k}: {len(got)} records returned, expected exactly the {exp_n} of the complete frames'); counters['records'] += 1; break
             counters['clean_cuts'] += 1
             # model on a sample of prefixes (all of them for small uncompressed streams)
-            if c['opts']['compression'] == 0 and (nbytes <= 1500 or k % 7 == 0 or k in ends or (k + 1) in ends or (k - 1) in ends):
+            if c['opts']['compression'] == 0 and (nbytes <= 1500 or (k % 7 == 0 and nbytes < 10000) or k in ends or (k + 1) in ends or (k - 1) in ends):
                 model_items.append((c['root'], stream[:2 * k], None, 0)); model_keys.append((c['id'], k, len(got), bool(r.get('openerr'))))
             elif c['opts']['compression'] == 1 and k in ends:
                 nfr = 1 + sum(1 for e in ends if e <= k)
@@ -155,12 +175,25 @@ def run_c07(h, sch, rng, tier, verdict, counters, stats, samples):
         opts['maxframe'] = rng.choice([0, 200, 1000])
         ops = small_history(sch, root, rng, 4 + rng.below(12), 1 + rng.below(3))
         cases.append(dict(id=f'c7-{i}', root=root, opts=opts, ops=ops))
+    for i, c in enumerate(cases):
+        if i % 2 == 0:
+            c['opts']['userdata'] = {'tenant': 'acme-' + 'x' * rng.below(40), 'collector': 'eu-west-%d' % i, 'k': ''}
+    # one stream whose LAST column alone exceeds bufio's 64 KiB buffer (large-read bypass, data
+    # delivered together with io.EOF): only Span.Status.Code changes from record to record
+    big = 'ab' * 200000           # 200 KB bytes value: AnyValue.Bytes under Exemplar.FilteredAttributes is the last column of Metrics
+    ex = lambda v: [['5', [1, '7'], '', '', [['6b', [7, v]]]]]
+    mrec = lambda v: [[[]], ['6d', '', '', '0', [], [], '0', False], ['', [], '0'], ['', '', '', [], '0'], [], ['1', '2', [1, '4'], ex(v)]]
+    big_ops = [{'op': 'set', 'v': mrec(big), 'freeze': True}, {'op': 'w'}, {'op': 'set', 'v': mrec(big[:-2]), 'freeze': True}, {'op': 'w'}, {'op': 'f'}]
+    cases.append(dict(id='c7-big-last-column', root='Metrics', opts={'compression': 0, 'flags': 0}, ops=big_ops))
     outs, stderr, rc = h.run_go(cases)
     # second pass: read each stream through the schedules
     rcases = []
     for c, o in zip(cases, outs):
-        rcases.append(dict(id=c['id'], root=c['root'], opts=c['opts'], mode='readonly', stream=o['stream'],
-                           scheds=schedules(rng, len(o['stream']) // 2, tier)))
+        nb = len(o['stream']) // 2
+        sc = schedules(rng, nb, tier)
+        if nb > 70000:
+            sc = {'eof_with_data': [-1], 'big_then_eof': [-1, 7, 1 << 20], 'one_then_big': [1] * 50 + [1 << 20], 'rnd_big': [1 + rng.below(70000) for _ in range(40)]}
+        rcases.append(dict(id=c['id'], root=c['root'], opts=c['opts'], mode='readonly', stream=o['stream'], scheds=sc))
     # also corrupted / truncated streams: the error class must not depend on the schedule either
     for c, o in list(zip(cases, outs))[:6]:
         st = bytearray.fromhex(o['stream'])
@@ -172,11 +205,11 @@ def run_c07(h, sch, rng, tier, verdict, counters, stats, samples):
     nsched = 0
     for c, o in zip(rcases, routs):
         base = o['read']
-        bkey = (base.get('recs'), bool(base.get('err')) , bool(base.get('openerr')), base.get('err') == 'eof')
+        bkey = (base.get('recs'), bool(base.get('err')) , bool(base.get('openerr')), base.get('err') == 'eof', base.get('ud'))
         for name, r in sorted(o['scheds'].items()):
             nsched += 1
             stats['schedules'] += 1
-            key = (r.get('recs'), bool(r.get('err')), bool(r.get('openerr')), r.get('err') == 'eof')
+            key = (r.get('recs'), bool(r.get('err')), bool(r.get('openerr')), r.get('err') == 'eof', r.get('ud'))
             if r.get('panic') or key != bkey:
                 verdict.violation(dict(case=dict(id=c['id'], root=c['root'], mode='readonly', stream=c['stream'], scheds={name: c['scheds'][name]}),
                                        schedule=name, plain=dict(n=len(base.get('recs') or []), err=base.get('err'), openerr=base.get('openerr')),
